@@ -707,3 +707,160 @@ def _install_skip3(reg):
         ensures=[(nm, pick(pbn_post, nm)) for nm in ["value_independent_of_caches", "only_this_cache_filled"] + ["inv." + x for x in INVN]],
         local_types={"network": M.OptBN},
     ), method_of="SD")
+
+
+def _install_skip4(reg):
+    from pyvc.externals_aeon import TNetObj, bn_net_of, net_of
+    from .deps import SrcOf
+    NODEF = ("space", "expanded", "skipped", "parent", "cand", "seeds", "sets", "ppn", "pbn", "pnfvs")
+    NODEF_NOEXP = ("space", "skipped", "parent", "cand", "seeds", "sets", "ppn", "pbn", "pnfvs")
+    INVN = [nm for nm, _ in S.inv(M.View(_dummy_ho()))]
+    EMPTYS = z3.K(Name, z3.IntVal(-1))
+    ALLF = ["K", "space", "expanded", "skipped", "parent", "cand", "seeds", "sets", "ppn", "pbn", "pnfvs",
+            "edge", "motifs", "motif0", "succsig", "depth", "index"]
+    EDGEF = ["edge", "motifs", "motif0", "succsig", "depth"]
+    TW = TList(TTuple(TInt, TSpace))
+    TT = TTuple(TInt, TSpace)
+    l, e, ss, bq = z3.Const("l!r", LS.sort()), z3.Const("e!r", T.SpaceS), z3.Const("ss!r", T.SrcSet), z3.Const("b!r", T.BNS)
+    k_, k2_ = z3.Int("k!s"), z3.Int("k!s2")
+    i_, x_, y_ = z3.Int("i"), z3.Int("x"), z3.Int("y")
+
+    def N(v):
+        return S.net(v)
+
+    def pick(fn, nm):
+        return lambda c: dict(fn(c))[nm]
+
+    def entry(c):
+        return c.old.self if c.old is not None else c.self
+
+    def R0(c):
+        return entry(c).space[0]
+
+    def lem_root(c):
+        """L4+L5 for the percolated root network; L3 facts; L2: every node lies inside the root; definition of EnumInside"""
+        o = entry(c)
+        Nn, Sp = N(o), o.space[0]
+        glue = z3.ForAll([l, e, ss, bq], z3.Implies(
+            z3.And(T.IsEnum(l, T.TrapSol(T.PNOfNet(bq), 0, False, e, T.no_avoid, ss)), e == EMPTYS,
+                   z3.Or(bq == T.PercNetObj(o.net, Sp), z3.And(bq == T.EmptyBN, T.card(Sp) == T.nvars(Nn)))),
+            z3.And(T.IsEnum(T.map_union_l(Sp, l), T.MinTrapSet(Nn, Sp)), S.min_trap_facts(Nn, Sp, T.map_union_l(Sp, l)))),
+            patterns=[T.IsEnum(l, T.TrapSol(T.PNOfNet(bq), 0, False, e, T.no_avoid, ss))])
+        return glue
+
+    def lem_inside(c):
+        """for every node space S (a trap space inside the root): EnumInside(N, minimal_traps, S) with its facts"""
+        v = c.self
+        Nn, mt = N(v), c.minimal_traps
+        Sp = R0(c)
+        sv = z3.Const("S!in", T.SpaceS)
+        return z3.Implies(T.IsEnum(mt, T.MinTrapSet(Nn, Sp)), z3.ForAll([sv], z3.Implies(
+            z3.And(T.IsTrap(Nn, sv), T.Perc(Nn, sv) == sv, T.wf_space(sv)),
+            z3.And(T.subspace(sv, Sp), S.EnumInside(Nn, mt, sv), S.enum_inside_facts(Nn, mt, sv),
+                   z3.Implies(T.MinTrapSet(Nn, sv)[sv], z3.Exists([k_], z3.And(0 <= k_, k_ < LS.len(mt), LS.at(mt)[k_] == sv))))),
+            patterns=[T.IsTrap(Nn, sv)]))
+
+    def tw_ok(c, v, upto):
+        """the first `upto` entries of trap_with_id pair each minimal trap space with its (expanded, successor-free) node"""
+        tw, mt = c.trap_with_id, c.minimal_traps
+        ent = lambda kk: TW.at(tw)[kk]
+        return z3.And(TW.len(tw) == upto, z3.ForAll([k_], z3.Implies(z3.And(0 <= k_, k_ < upto), z3.And(
+            TT.get(ent(k_), 1) == LS.at(mt)[k_], S.valid(v, TT.get(ent(k_), 0)), v.space[TT.get(ent(k_), 0)] == LS.at(mt)[k_],
+            v.expanded[TT.get(ent(k_), 0)], v.succsig[TT.get(ent(k_), 0)] == S.nosucc))))
+
+    def changesA(v, o, Nn, Sp):
+        """loop A only creates nodes for minimal trap spaces and marks them expanded"""
+        return z3.And(
+            S.frame_nodes(v, o, fields=("space", "skipped", "parent", "cand", "seeds", "sets", "ppn", "pnfvs", "succsig")),
+            z3.ForAll([i_], z3.Implies(z3.And(0 <= i_, i_ < o.K, o.expanded[i_]), v.expanded[i_])),
+            z3.ForAll([i_], z3.Implies(z3.And(0 <= i_, i_ < v.K, v.expanded[i_], z3.Or(i_ >= o.K, z3.Not(o.expanded[i_]))),
+                                       z3.And(v.succsig[i_] == S.nosucc, T.MinTrapSet(Nn, Sp)[v.space[i_]]))),
+            z3.ForAll([x_, y_], z3.Implies(z3.And(0 <= x_, x_ < o.K, 0 <= y_, y_ < o.K), z3.And(
+                v.edge[x_][y_] == o.edge[x_][y_], v.motifs[x_][y_] == o.motifs[x_][y_], v.motif0[x_][y_] == o.motif0[x_][y_]))),
+            z3.ForAll([x_, y_], z3.Implies(z3.And(0 <= x_, x_ < v.K, z3.Or(x_ >= o.K, y_ >= o.K)), z3.Not(v.edge[x_][y_]))),
+            v.K >= o.K, v.net == o.net, v.sym == o.sym, v.pn == o.pn,
+            z3.ForAll([i_], z3.Implies(z3.And(0 <= i_, i_ < o.K), v.depth[i_] >= o.depth[i_])))
+
+    def loopA(c):
+        v, o = c.self, c.old.self
+        return [("inv." + nm, g) for nm, g in S.inv(v)] + [
+            ("pairs", tw_ok(c, v, c.i)),
+            ("only_minimal_traps_added", changesA(v, o, N(o), o.space[0])),
+        ]
+
+    def cleared(v, n):
+        return z3.And(v.cand[n] == M.OptLS.none().t, v.seeds[n] == M.OptLS.none().t, v.sets[n] == M.OptLV.none().t)
+
+    def changesB(c, v, a, upto, exempt=None):
+        """relative to the diagram `a` after loop A: nodes below `upto` that were stubs are now skip nodes; everything else is untouched"""
+        ex = (lambda n: n != exempt) if exempt is not None else (lambda n: z3.BoolVal(True))
+        return z3.And(
+            v.K == a.K, v.index == a.index, v.net == a.net, v.sym == a.sym, v.pn == a.pn,
+            S.frame_nodes(v, a, fields=("space", "parent", "ppn", "pbn", "pnfvs")),
+            z3.ForAll([i_], z3.Implies(z3.And(0 <= i_, i_ < a.K, ex(i_), z3.Or(i_ >= upto, a.expanded[i_])), z3.And(
+                v.expanded[i_] == a.expanded[i_], v.skipped[i_] == a.skipped[i_], v.cand[i_] == a.cand[i_], v.seeds[i_] == a.seeds[i_],
+                v.sets[i_] == a.sets[i_], v.succsig[i_] == a.succsig[i_]))),
+            z3.ForAll([i_], z3.Implies(z3.And(0 <= i_, i_ < upto, ex(i_), z3.Not(a.expanded[i_])), z3.And(v.expanded[i_], v.skipped[i_], cleared(v, i_)))),
+            z3.ForAll([x_, y_], z3.Implies(z3.And(0 <= x_, x_ < a.K, ex(x_), z3.Or(x_ >= upto, a.expanded[x_])), z3.And(
+                v.edge[x_][y_] == a.edge[x_][y_], z3.Implies(z3.And(0 <= y_, y_ < a.K), z3.And(
+                    v.motifs[x_][y_] == a.motifs[x_][y_], v.motif0[x_][y_] == a.motif0[x_][y_]))))),
+            z3.ForAll([i_], z3.Implies(z3.And(0 <= i_, i_ < a.K), v.depth[i_] >= a.depth[i_])))
+
+    def loopB(c):
+        v, a = c.self, c.at_entry(1).self
+        return [("inv." + nm, g) for nm, g in S.inv(v)] + [
+            ("pairs", tw_ok(c, v, LS.len(c.minimal_traps))),
+            ("enumeration", T.IsEnum(c.minimal_traps, T.MinTrapSet(N(v), R0(c)))),
+            ("processed_prefix", changesB(c, v, a, c.i)),
+            ("range", z3.And(0 <= c.i, c.i <= v.K)),
+            ("count", c.skipped_nodes >= 0),
+        ]
+
+    def loopC(c):
+        v, a, n = c.self, c.at_entry(1).self, c.node_id
+        tw, mt = c.trap_with_id, c.minimal_traps
+        ent = lambda kk: TW.at(tw)[kk]
+        return [("inv." + nm, g) for nm, g in S.inv(v, exempt=n)] + [
+            ("pairs", tw_ok(c, v, LS.len(mt))),
+            ("enumeration", T.IsEnum(mt, T.MinTrapSet(N(v), R0(c)))),
+            ("processed_prefix", changesB(c, v, a, c.outer(1)["i"], exempt=n)),
+            ("node_in_progress", z3.And(S.valid(v, n), n == c.outer(1)["i"], z3.Not(a.expanded[n]), z3.Not(v.expanded[n]), z3.Not(v.skipped[n]),
+                                        cleared(v, n), v.space[n] == a.space[n])),
+            ("signature_so_far", v.succsig[n] == S.FoldSigF(N(v), mt, v.space[n], c.i)),
+            ("edges_so_far", z3.ForAll([k_], z3.Implies(z3.And(0 <= k_, k_ < c.i, T.subspace(LS.at(mt)[k_], v.space[n])),
+                                                        v.edge[n][TT.get(ent(k_), 0)]))),
+            ("count", z3.And(c.skipped_nodes >= 0, c.skip_edges >= 0)),
+        ]
+
+    def post(c):
+        v, o = c.self, c.old.self
+        return [("inv." + nm, g) for nm, g in S.inv(v)] + [
+            ("everything_expanded", z3.ForAll([i_], z3.Implies(S.valid(v, i_), v.expanded[i_]))),
+            ("expanded_nodes_untouched", S.ext(v, o)),
+            ("former_stubs", z3.ForAll([i_], z3.Implies(z3.And(0 <= i_, i_ < o.K, z3.Not(o.expanded[i_])), z3.Or(
+                z3.And(v.skipped[i_], cleared(v, i_)),
+                z3.And(z3.Not(v.skipped[i_]), v.succsig[i_] == S.nosucc, v.cand[i_] == o.cand[i_], v.seeds[i_] == o.seeds[i_], v.sets[i_] == o.sets[i_]))))),
+            ("count_nonneg", c.result >= 0),
+        ]
+
+    names = ["inv." + x for x in INVN] + ["everything_expanded", "expanded_nodes_untouched", "former_stubs", "count_nonneg"]
+    reg.add(Contract(
+        "biobalm.succession_diagram.SuccessionDiagram.skip_remaining",
+        params=[("self", SD)], result_type=TInt,
+        properties=("C14", "C05", "C03"),
+        requires=[lambda c: S.inv_all(c.self)],
+        modifies={"self": ALLF},
+        may_raise={"RuntimeError": {"modifies": {"self": ["pbn"]}}},
+        raises={"RuntimeError": [("inv_kept", lambda c: S.inv_all(c.self))]},
+        ensures=[(nm, pick(post, nm)) for nm in names],
+        lemmas=[("L4+L5.min_traps_of_percolated_root+L3.min_trap_facts", lem_root)],
+        loops={
+            0: LoopContract("for m_trap in minimal_traps", loopA, havoc_heap={"self": ALLF}),
+            1: LoopContract("for node_id in self.node_ids()", loopB, havoc_heap={"self": ALLF},
+                            lemmas=[("L3.min_traps_inside(EnumInside)+L2.below_root", lem_inside)]),
+            2: LoopContract("for m_id, m_trap in trap_with_id", loopC, havoc_heap={"self": EDGEF},
+                            lemmas=[("L3.min_traps_inside(EnumInside)+L2.below_root", lem_inside),
+                                    ("def.SkipOK", lambda c: S.skipok_intro_inside(N(c.self), c.self.space[c.node_id], c.minimal_traps, c.self.succsig[c.node_id]))]),
+        },
+        local_types={"minimal_traps": LS, "trap_with_id": TW, "skipped_nodes": TInt, "skip_edges": TInt},
+    ), method_of="SD")
